@@ -65,7 +65,9 @@ def run(ctx):
     for c in cases:
         nf = rng.choice([1, 1, 2, 3])
         c['files'] = units.split_files(rng, c['decls'], nf) if nf > 1 else [list(c['decls'])]
-        c['texts'] = [units.print_file(f, rng) for f in c['files']]
+        # half of the units in a varied spelling: enumerated values with or without their type name, identifier case per occurrence
+        vary = rng.random() < 0.5
+        c['texts'] = [units.print_file(f, rng, vary=vary) for f in c['files']]
     impl = core.run_lines(core.VH, ['project ' + ' '.join(core.hexs(t) if t else '-' for t in c['texts']) for c in cases], jobs=12)
     model = core.run_lines(core.PLCDRV, [units.enc_unit(c['files']) for c in cases], jobs=12) if ctx.model_available else [None] * len(cases)
     for c, io, mo in zip(cases, impl, model):
